@@ -14,6 +14,18 @@ def handleAgg (op : String) (j : Json) : Option (P Json) :=
   | "agg.median" => some (run fun vs f => jRes jSV (medianAgg vs f))
   | "agg.quote" => some (run fun vs f => jRes jSV (quoteAgg vs f))
   | "agg.mode" => some (run fun vs f => jRes jOptSV (modeAgg vs f))
+  | "agg.seq" => some (do
+      -- several aggregators applied one after the other to the SAME observation list (as `outcome()` does
+      -- for a stream that channels aggregate in more than one way): each is a function of the list alone
+      let f ← getNat j "f"
+      let vs ← (← getArr j "values").mapM asOptSV
+      let outs ← (← getArr j "aggs").mapM fun a => do
+        match (← asStr a) with
+        | "median" => pure (jRes jSV (medianAgg vs f))
+        | "quote" => pure (jRes jSV (quoteAgg vs f))
+        | "mode" => pure (jRes jOptSV (modeAgg vs f))
+        | x => throw s!"bad aggregator {x}"
+      pure (Json.mkObj [("ok", .arr outs.toArray)]))
   | "sv.binary" => some (do
       let v ← fld j "v" >>= asSV
       pure (Json.mkObj [("ok", jBytes (marshalSV v))]))
